@@ -535,7 +535,8 @@ def check_response_view(idx):
     """check_response with pure single-expression helper predicates the normaliser left behind (e.g. under `and`/`or`)
     inlined as expressions."""
     fi0 = idx.func(SG + '.check_response')
-    view, done = X.inline_pure_calls(idx, fi0, only=set(getattr(idx, 'unreviewed', None) or []))
+    partly = set((getattr(idx, 'normalization', None) or {}).get('inlined', {}) or {})      # inlined at some call sites, left at others
+    view, done = X.inline_pure_calls(idx, fi0, only=set(getattr(idx, 'unreviewed', None) or []) | partly)
     X.settle_unreviewed(idx, done, {fi0.qualname})
     return view
 
@@ -906,12 +907,13 @@ def d34_decision(ctx, idx):
         paths = nf.decision_paths(fi.node.body)
         guards = make_guards(idx, fi)
         compiled = [([guards.compile(g) for g in p.guards], classify_leaf(p, fi), p) for p in paths]
+        tree = _path_tree(compiled, 0)
         stats = {}
         for w in X.worlds(DOMAIN):
             if w['equal'] and w['e_match'] != w['s_match']:
                 continue          # equal strings cannot differ in matching
             want, group = spec_outcome(w)
-            sel = [c for c in compiled if all(g(w) for g in c[0])]
+            sel = [_descend(tree, w)] if tree is not None else [c for c in compiled if all(g(w) for g in c[0])]
             if len(sel) != 1:
                 raise AnalysisError('decision paths are not exclusive/exhaustive (%d paths for one case)' % len(sel))
             got = sel[0][1]
@@ -933,6 +935,35 @@ def d34_decision(ctx, idx):
                             expected=_leaf_text(want), found=_leaf_text(got))
             else:
                 r.ok(GROUPS[group], '%d cases of the atom domain agree' % st['n'], fi.loc)
+
+
+def _path_tree(entries, depth):
+    """The decision paths share guard prefixes (each `if` contributes a test to one half and its negation to the other):
+    arrange them as the binary tree they came from, so that one case costs a walk from the root instead of a scan of all
+    paths.  None if the paths do not have that shape (the caller then scans)."""
+    if len(entries) == 1 and len(entries[0][0]) == depth:
+        return ('leaf', entries[0])
+    if any(len(e[0]) <= depth for e in entries):
+        return None
+    key = lambda e: unparse(e[2].guards[depth])
+    k0 = key(entries[0])
+    left = [e for e in entries if key(e) == k0]
+    right = [e for e in entries if key(e) != k0]
+    if not right or len({key(e) for e in right}) != 1:
+        return None
+    lt, rt = _path_tree(left, depth + 1), _path_tree(right, depth + 1)
+    if lt is None or rt is None:
+        return None
+    return ('node', left[0][0][depth], right[0][0][depth], lt, rt)
+
+
+def _descend(tree, w):
+    while tree[0] == 'node':
+        a, b = tree[1](w), tree[2](w)
+        if a == b:
+            raise AnalysisError('decision paths are not exclusive/exhaustive (a test and its negation agree for one case)')
+        tree = tree[3] if a else tree[4]
+    return tree[1]
 
 
 def _leaf_text(t):
@@ -1122,7 +1153,19 @@ _MIN_BLOCKS_SWAPPED = ("            words = len(student.split())\n"
                        "                msg = ('Your response is too short ({chars}/{min} characters)'\n"
                        "                       ).format(chars=chars, min=min_length)\n")
 
+_W5I_CONSTS = ("            Required('invalid_msg', default='Your input is not in the expected format'): str\n            })\n", "            Required('invalid_msg', default='Your input is not in the expected format'): str\n            })\n\n    SPACE_LIKE = ('\\t', '\\r\\n', '\\n\\r', '\\r', '\\n')\n    MULTIPLE_SPACES = re.compile(r' +')\n")
+_W5I_OLD = "        cleaned = cleaned.replace('\\t', ' ')\n        cleaned = cleaned.replace('\\r\\n', ' ')\n        cleaned = cleaned.replace('\\n\\r', ' ')\n        cleaned = cleaned.replace('\\r', ' ')\n        cleaned = cleaned.replace('\\n', ' ')\n\n        # Apply case sensitivity\n        if not self.config['case_sensitive']:\n            cleaned = cleaned.lower()\n\n        # Apply strip, strip_all and clean_spaces\n        if self.config['strip']:\n            cleaned = cleaned.strip()\n        if self.config['strip_all']:\n            cleaned = cleaned.replace(' ', '')\n        if self.config['clean_spaces']:\n            cleaned = re.sub(r' +', ' ', cleaned)\n\n        return cleaned\n\n"
+_W5I_HEAD = "        for sequence in self.SPACE_LIKE:\n            cleaned = cleaned.replace(sequence, ' ')\n\n"
+_W5I_SLIP = "        if self.config['strip']:\n            cleaned = cleaned.strip()\n        if self.config['strip_all']:\n            return cleaned.replace(' ', '')\n        if self.config['clean_spaces']:\n            cleaned = self.MULTIPLE_SPACES.sub(' ', cleaned)\n\n        return cleaned if self.config['case_sensitive'] else cleaned.lower()\n\n"
+_W5I_FIXED = "        if self.config['strip']:\n            cleaned = cleaned.strip()\n        if self.config['strip_all']:\n            cleaned = cleaned.replace(' ', '')\n        elif self.config['clean_spaces']:\n            cleaned = self.MULTIPLE_SPACES.sub(' ', cleaned)\n\n        return cleaned if self.config['case_sensitive'] else cleaned.lower()\n\n"
+_W5I_FIXED2 = "        if not self.config['case_sensitive']:\n            cleaned = cleaned.lower()\n\n        if self.config['strip']:\n            cleaned = cleaned.strip()\n        if self.config['strip_all']:\n            return cleaned.replace(' ', '')\n        if self.config['clean_spaces']:\n            cleaned = self.MULTIPLE_SPACES.sub(' ', cleaned)\n\n        return cleaned\n\n"
+
+_W5J_HELPER = ('    def check_response(self, answer, student_input, **kwargs):\n', "    def satisfies_pattern(self, text):\n        pattern = self.config['validation_pattern']\n        return pattern is None or re.fullmatch(pattern, text) is not None\n\n    def check_response(self, answer, student_input, **kwargs):\n")
+_W5J_BODY = ('        # Apply the validation pattern\n        pattern = self.config[\'validation_pattern\']\n        if pattern is not None:\n            # The pattern must match the entire input (fullmatch, rather than\n            # appending "$", so that alternations like \'cat|dog\' are anchored too)\n            if not accept_any:\n                # Make sure that expect matches the pattern\n                # If it doesn\'t, a student can never get this right\n                if re.fullmatch(pattern, expect) is None:\n                    msg = "The provided answer \'{}\' does not match the validation pattern \'{}\'"\n                    raise ConfigError(msg.format(answer[\'expect\'], pattern))\n\n            # Check to see if the student input matches the validation pattern\n            if re.fullmatch(pattern, student) is None:\n                return self.construct_message(self.config[\'invalid_msg\'],\n                                              self.config[\'explain_validation\'])\n\n', '        if not accept_any and not self.satisfies_pattern(expect):\n            msg = "The provided answer \'{}\' does not match the validation pattern \'{}\'"\n            raise ConfigError(msg.format(answer[\'expect\'], self.config[\'validation_pattern\']))\n\n        if not self.satisfies_pattern(%s):\n            return self.construct_message(self.config[\'invalid_msg\'],\n                                          self.config[\'explain_validation\'])\n\n')
+
 MUTANTS = [
+    Mutant('pattern-helper-given-uncleaned-submission', SGF, [_W5J_HELPER, (_W5J_BODY[0], _W5J_BODY[1] % 'student_input')], None, 'D2'),
+    Mutant('strip-all-returns-before-case-fold', SGF, [_W5I_CONSTS, (_W5I_OLD, _W5I_HEAD + _W5I_SLIP)], None, 'D1'),
     Mutant('expect-not-cleaned', SGF, "        expect = self.clean_input(answer['expect'])", "        expect = str(answer['expect'])", 'D2'),
     Mutant('submission-not-cleaned', SGF, "        student = self.clean_input(student_input)", "        student = str(student_input)", 'D2'),
     Mutant('cr-before-crlf', SGF, "        cleaned = cleaned.replace('\\r\\n', ' ')\n        cleaned = cleaned.replace('\\n\\r', ' ')\n        cleaned = cleaned.replace('\\r', ' ')\n",
@@ -1169,6 +1212,9 @@ MUTANTS = [
 ]
 
 BENIGN = [
+    Benign('pattern-test-in-helper', SGF, [_W5J_HELPER, (_W5J_BODY[0], _W5J_BODY[1] % 'student')], None),
+    Benign('case-fold-last-strip-all-elif', SGF, [_W5I_CONSTS, (_W5I_OLD, _W5I_HEAD + _W5I_FIXED)], None),
+    Benign('strip-all-early-return-after-case-fold', SGF, [_W5I_CONSTS, (_W5I_OLD, _W5I_HEAD + _W5I_FIXED2)], None),
     Benign('zero-record-copied-from-constant', SGF, "            if student != expect:\n                return {'ok': False, 'grade_decimal': 0, 'msg': ''}",
            "            if student != expect:\n                return dict({'ok': False, 'grade_decimal': 0, 'msg': ''})"),
     Benign('too-short-message-by-concatenation', SGF, "                msg = ('Your response is too short ({words}/{min} words)'\n                       ).format(words=words, min=self.config['min_words'])",
